@@ -5,7 +5,7 @@ PROP = dict(
     # the model of newImmutableCell is PROVED equal to the TON definition (impl_eq_spec, table_refines_tree), so its
     # answers are the specification: a mismatch on these ops is a violation with the table as failing input.
     # `spec.levels` is answered on the model side by the Lean SPEC itself (Spec.hashAt/depthAt on the unfolded tree).
-    spec_ops=("cell.hash", "cell.levels", "cell.all", "cell.forms", "spec.levels", "lmask"),
+    spec_ops=("cell.hash", "cell.levels", "cell.all", "cell.forms", "cell.rehash", "spec.levels", "lmask"),
     rule="(1) random DAGs of ordinary cells (1..40 cells, sharing, chains); (2) WFExotic DAGs over all five cell types "
          "built children first: parents' masks = OR of the children's (shifted right under Merkle cells), pruned "
          "branches carry the real level-wise hashes/depths (computed from the definition) of a generated original with "
@@ -20,7 +20,10 @@ PROP = dict(
          "them in cells of their own): decoded hash field vs the definition, plain decoder and caching decoder "
          "(go.msgtx), plus cell.forms; (5c) Merkle updates over two pruned versions (old/new) of a tree with real "
          "pruned branches on both sides, optionally below ordinary wrapper cells (class_merkle_update); "
-         "(5b) malformed stream: any type byte 0..7, any 3-bit mask, any data length, masks unrelated to "
+         "(5d) stateful: one cell built in memory and hashed BETWEEN writes (WriteBit / AddRef, then Hash, Hash256, "
+         "HashString and a fresh Hasher, repeatedly): every hash is the hash of the current content (cell.rehash, "
+         "go.rehash); accessors GetMerkleRoot / GetLibraryHash and the tlb.MerkleProof / tlb.MerkleUpdate decoders on "
+         "generated exotic cells return the stored hashes/depths (go.accessors); (5b) malformed stream: any type byte 0..7, any 3-bit mask, any data length, masks unrelated to "
          "children (model = code exactly, and go.nopanic); (6) level-mask helpers on all masks 0..7 x levels 0..5 and random 32-bit masks. "
          "non-trivial = distinct table with >= 2 cells or an exotic root.",
     trusted_base=[
